@@ -130,6 +130,91 @@ def programStatement (ac : Bool) (h : List Cycle) (ops : List Op) (outs : List O
   | some why => some why
   | none => historyStatement ac h (dropRejects ops) (dropRejOuts outs)
 
+/-! ### cycles abandoned with `Clear` (fourth wave, seeded change C13-m7)
+
+A cycle may be given up before `Finalise`: some pushes (enough to spill or not), then `Clear`.
+The pushed values are discarded and the sorter is empty again; the cycles that follow are use
+cycles like any other ("whatever earlier cycles did").  A *segment* is a use cycle or such an
+abandoned cycle (`dropped`: zero or more pushes, then `Clear`, no `Finalise`). -/
+
+inductive Seg where
+  | cyc (cy : Cycle)
+  | dropped (pushes : List Elem)
+deriving DecidableEq, Repr
+
+def Seg.ops : Seg → List Op
+  | .cyc cy => cy.ops
+  | .dropped es => es.map Op.push ++ [Op.clear]
+
+def Seg.closed (ac : Bool) : Seg → Bool
+  | .cyc cy => cy.closed ac
+  | .dropped _ => true
+
+def wellFormedSegs (ac : Bool) : List Seg → Bool
+  | [] => true
+  | [_] => true
+  | sg :: rest => sg.closed ac && wellFormedSegs ac rest
+
+def groupSegs : Nat → List Op → Option (List Seg)
+  | _, [] => some []
+  | 0, _ => none
+  | fuel + 1, ops =>
+    let (es, r1) := splitPushes ops
+    match r1 with
+    | .finalise :: r2 =>
+      let (k, r3) := splitPulls r2
+      match r3 with
+      | .clear :: r4 => (groupSegs fuel r4).map (Seg.cyc ⟨es, k, true⟩ :: ·)
+      | r4 => (groupSegs fuel r4).map (Seg.cyc ⟨es, k, false⟩ :: ·)
+    | .clear :: r2 => (groupSegs fuel r2).map (Seg.dropped es :: ·)
+    | _ => none
+
+/-- the segments of a flat operation list (no rejected pushes), when every segment but the last
+    leaves the sorter ready for the next one -/
+def segsOf (ac : Bool) (ops : List Op) : Option (List Seg) :=
+  match groupSegs (ops.length + 1) ops with
+  | some sg => if sg.flatMap Seg.ops = ops ∧ wellFormedSegs ac sg then some sg else none
+  | none => none
+
+/-- the use cycles among the segments -/
+def cyclesOf : List Seg → List Cycle
+  | [] => []
+  | .cyc cy :: r => cy :: cyclesOf r
+  | .dropped _ :: r => cyclesOf r
+
+def hasDropped (sg : List Seg) : Bool := sg.any (fun s => match s with | .dropped _ => true | _ => false)
+
+/-- The statement for an abandoned cycle on its outputs: every `Push` succeeds with `Len` = `Pos` =
+    the number of values pushed so far in the cycle, and `Clear` succeeds and leaves `Len` = `Pos` = 0. -/
+def checkDropped (n : Nat) (outs : List Out) : Option String :=
+  if outs.take n ≠ (List.range n).map (fun i => (⟨.ok, none, i + 1, i + 1⟩ : Out)) then
+    some "push-result-or-len-pos"
+  else if outs[n]? ≠ some ⟨.ok, none, 0, 0⟩ then some "clear-result-or-len-pos"
+  else none
+
+/-- `checkHistory` for segments: every use cycle satisfies `checkCycle` (its pulls are the sorted
+    multiset of *its* pushes - nothing of an abandoned cycle is delivered), every abandoned cycle
+    `checkDropped`.  Without abandoned cycles this is `checkHistory` (`checkSegs_cycles`). -/
+def checkSegs (ac : Bool) : List Seg → Nat → List Out → Option String
+  | [], _, _ => none
+  | .cyc cy :: rest, i, outs =>
+    match checkCycle ac cy (outs.take (cycleOpCount cy)) with
+    | some why => some s!"cycle{i}:{why}"
+    | none => checkSegs ac rest (i + 1) (outs.drop (cycleOpCount cy))
+  | .dropped es :: rest, i, outs =>
+    match checkDropped es.length (outs.take (es.length + 1)) with
+    | some why => some s!"abandoned-cycle{i}:{why}"
+    | none => checkSegs ac rest (i + 1) (outs.drop (es.length + 1))
+
+/-- `programStatement` for a program whose accepted calls are the segments `sg`. -/
+def programStatementA (ac : Bool) (sg : List Seg) (ops : List Op) (outs : List Out) : Option String :=
+  if outs.length ≠ ops.length then some "history-did-not-complete" else
+  match rejectsStatement ops outs 0 0 with
+  | some why => some why
+  | none =>
+    if (dropRejOuts outs).length ≠ (dropRejects ops).length then some "history-did-not-complete"
+    else checkSegs ac sg 1 (dropRejOuts outs)
+
 def stripTag (tok : String) : String :=
   match tok.splitOn "/" with
   | [r, v, l, p] =>
@@ -167,8 +252,22 @@ def handleTokens (inp : List String) (obs : String) : Verdict :=
           | some why => fail why tags
           | none => if m == impl then ok tags else diff m tags
       | none =>
-        let tags := base ++ ["illformed"]
-        if m == impl then ok tags else diff m tags
+        match segsOf ac (dropRejects ops) with
+        | some sg =>
+          -- cycles abandoned with Clear before Finalise among the use cycles
+          let spilled := sg.any (fun s => match s with | .dropped es => decide (c < es.length) | _ => false)
+          let tags := base ++ ["abandoned-cycle", "nt"] ++ (if spilled then ["abandoned-after-spilling"] else [])
+            ++ (if rejects then ["rejected-push"] else [])
+          if c = 0 then (if m == impl then ok tags else diff m tags) else
+          match implToks.mapM parseOut with
+          | none => fail "call-returned-unexpected-error-or-died" tags
+          | some outs =>
+            match programStatementA ac sg ops outs with
+            | some why => fail why tags
+            | none => if m == impl then ok tags else diff m tags
+        | none =>
+          let tags := base ++ ["illformed"]
+          if m == impl then ok tags else diff m tags
     | _, _, _ => bad "h"
   | _ => bad "unknown-op"
 
